@@ -124,10 +124,11 @@ class RegexExpr:
 
     def filter(self, information: JobInformation):
         value = self.var.get(information)
-        if not value:
+        if value is None:
             return False
 
-        return self.regex.match(value)
+        # (an empty value is a value: `x ~ ".*"` matches it)
+        return self.regex.match(value) is not None
 
 
 class ConstantString:
